@@ -34,7 +34,7 @@ REGISTRY = {
             "contents are opaque payload ids; plural merging and foreign keys are outside this model (C05/C06); serde_json "
             "and toml parsing are exercised, not modelled. No axioms.",
     "engine": "coq",
-    "packages": [("h_merge", "json")],
+    "packages": [("h_merge", ("json",), "target_merge_json")],
 }
 
 
